@@ -188,7 +188,9 @@ func Worker(o WorkerOpts) int {
 			sum.Aborted[res.Aborted]++
 		}
 		if res.NonTrivial && res.Viol == nil {
-			if len(nt) < hashCap {
+			if len(res.Cases) > 0 {
+				// counted through Cases below
+			} else if len(nt) < hashCap {
 				nt[res.CaseHash] = struct{}{}
 			} else {
 				sum.Capped = true
@@ -209,6 +211,20 @@ func Worker(o WorkerOpts) int {
 		}
 		if res.SchedHash != 0 && len(sc) < hashCap {
 			sc[res.SchedHash] = struct{}{}
+		}
+		for _, h := range res.Scheds {
+			if len(sc) < hashCap {
+				sc[h] = struct{}{}
+			}
+		}
+		if res.Viol == nil {
+			for _, h := range res.Cases {
+				if len(nt) < hashCap {
+					nt[h] = struct{}{}
+				} else {
+					sum.Capped = true
+				}
+			}
 		}
 		for _, s := range res.States {
 			if len(stt) < hashCap {
